@@ -108,7 +108,7 @@ def solve(assertions, rlimit=RLIMIT_PROVE, want_model=True, use_cvc5=True, tacti
         # the resource count a query needs depends on the solver state left by the queries the worker process ran before
         # it (which units a worker gets is scheduling-dependent): an `unknown` is retried in FRESH contexts with other
         # seeds and a larger budget.  Only `unsat` is taken from a retry (a proof is a proof in any context).
-        for seed, factor in ((11, 2), (23, 3)):
+        for seed, factor in ((11, 1), (23, 2)):
             try:
                 c2 = z3.Context()
                 s2 = z3.Solver(ctx=c2)
